@@ -81,6 +81,8 @@ edit("B8 Ok(None) decided without looking at recv_closing", "B",
      (S, "                        self.recv_closing.is_some() && self.poll_requests_completion(cx).is_ready()", "                        self.poll_requests_completion(cx).is_ready()"))
 edit("B9 server shutdown announces largest + n (not n + 1)", "B",
      (S, "Some(id) => id + max_requests.saturating_add(1),", "Some(id) => id + max_requests,"))
+edit("B11 ConnectionInner::shutdown without its leading error check (the D-05s repair undone)", "B",
+     (C, "        self.check_connection_error()?;\n\n        if let Some(sent_id) = sent_closing {", "        if let Some(sent_id) = sent_closing {"))
 edit("B10 send_request: the closing gate behind poll_open_bidi", "B",
      ("h3/src/client/connection.rs", "        if let Some(error) = self.check_peer_connection_closing() {\n            return Err(error);\n        };\n\n", ""),
      ("h3/src/client/connection.rs", "            .map_err(|e| self.handle_quic_stream_error(e))?;\n\n        //= https://www.rfc-editor.org/rfc/rfc9114#section-4.2\n        //= type=TODO\n        //# Characters in field names MUST be\n        //# converted to lowercase prior to their encoding.\n\n        //= https://www.rfc-editor.org/rfc/rfc9114#section-4.2.1",
